@@ -30,6 +30,9 @@ PROPS = {
         "jobs": [
             {"scen": "tunnel", "sets": {"mode": "clean"}, "quick": 1500, "thorough": 50000},
             {"scen": "tunnel", "sets": {"mode": "faulty"}, "quick": 1500, "thorough": 50000},
+            {"scen": "tunnel", "sets": {"mode": "redeliver"}, "quick": 800, "thorough": 30000},
+            {"scen": "forward", "sets": {}, "quick": 1500, "thorough": 50000},
+            {"scen": "probe", "sets": {}, "quick": 600, "thorough": 30000},
         ],
         "expect_probes": ["c10.checked"],
     },
@@ -54,6 +57,7 @@ PROPS = {
         "jobs": [
             {"scen": "hostile_srv", "sets": {}, "quick": 2000, "thorough": 150000},
             {"scen": "sessions", "sets": {}, "quick": 700, "thorough": 40000},
+            {"scen": "sessions", "sets": {"focus": "fragsize"}, "quick": 800, "thorough": 40000},
         ],
         "own_viol": ["C05"],
         "expect_probes": ["c05.hostile_delivered", "c05.raw_frames", "c05.cmd.v", "c05.cmd.l", "c05.cmd.i", "c05.cmd.z", "c05.cmd.s", "c05.cmd.o", "c05.cmd.y", "c05.cmd.r", "c05.cmd.n", "c05.cmd.p", "c05.cmd.d"],
@@ -184,6 +188,12 @@ PROPS["C09"] = {
 }
 
 LEVEL_TEXT = {
+    "C08": "Exploration: every query name the unmodified client emits in short real sessions over sampled (L, domain length, upstream codec, payload) is parsed strictly, length-checked and reference-decoded on the wire, and compared slice by slice with compress2 of the packet read from tun and with the server's reassembly buffer. Sampled, not enumerated.",
+    "C09": "Exploration: real server encodings decoded by an independent reference decoder over sampled lengths in every (type, codec, name-length) cell with a downward-closure check; reference encodings and real encodings fed to the real client in live sessions judged by exact packet delivery.",
+    "C11": "Exploration: the real client's autodetection runs end to end through sampled fixed path transformations; a completed handshake must be followed by exact delivery, and negotiation must complete whenever Base32, 512-byte answers and one record type pass.",
+    "C15": "Exploration: wire-only size/numbering/last-flag oracle on every data answer of the real server over faulty real-client sessions and scripted sessions with fragment sizes 2..65535, changes in mid-session and server packets up to 9000 bytes.",
+    "C16": "Exploration: seeded re-delivery schedules (verbatim, new id, re-cased, foreign source; gated to the window the statement quantifies over) against live real sessions; session stream positions, answer contents and both tun streams are checked around every re-delivery.",
+    "C20": "Exploration: seeded sequences of forwarded queries and local-DNS reply schedules (late, reordered, dropped, duplicated, unknown ids) against the real server with -b; a ledger of the 16 most recent forwards decides where each reply may go.",
     "C03": "Exploration: seeded adversarial histories against the real server in virtual time, judged by an independent authorisation model and by users[] snapshots around every processed datagram.",
     "C04": "Exploration: seeded multi-session histories with spoofers and expiry/reuse timing, judged by a wire-level model of slot ownership and a reference downstream reassembler.",
     "C12": "Exploration by differential replay: exact determinism of the simulator turns the uncontrolled stale receive-buffer content into an explicit input; every pair must behave identically.",
@@ -205,10 +215,4 @@ NOT_APPLICABLE = {
 
 # properties whose check is not registered (yet); kept current so MANIFEST.not_applicable covers every unclaimed id
 NOT_CLAIMED = {
-    "C15": "under construction",
-    "C16": "under construction",
-    "C08": "under construction",
-    "C09": "under construction",
-    "C11": "under construction",
-    "C20": "under construction",
 }
